@@ -142,7 +142,7 @@ MTxs ==
 
 MUnconfirm ==
   /\ phase = "moving"
-  /\ CanUnconfirm(cf, ifc, gv)
+  /\ CanUnconfirm(cf, ifc, gv) /\ Stale(cf) # {}
   /\ cf' = ConfAfterUnconfirm(cf) /\ ifc' = "confirm"
   /\ hist' = Append(hist, [op |-> "unconf"])
   /\ UNCHANGED <<hvars, target, tp, gv, phase, todo, explored, dups, restarts>>
